@@ -378,3 +378,18 @@ Qed.
 (* non-default port: only the bracketed name is consulted *)
 Lemma hostkey_name_port h b port : port <> 22 -> hostkey_name h b port = Nm false b.
 Proof. intros H. unfold hostkey_name. destruct (port =? 22) eqn:E; [apply Z.eqb_eq in E; contradiction | reflexivity]. Qed.
+
+(* the host key block is skipped only for a NEGOTIATED GSS-API key exchange *)
+Lemma advertised_gss_irrelevant n a1 a2 : gss_kex_used_flag n a1 = gss_kex_used_flag n a2.
+Proof. reflexivity. Qed.
+
+Lemma advertised_gss_still_checked hm sys usr h b port p adv kex_ok sk es :
+  our_server_keys hm sys usr (hostkey_name h b port) = Some es ->
+  subdict_get es (ktype sk) <> Some sk ->
+  ~ In CAuth (fst (client_connect hm sys usr h b port p (gss_kex_used_flag false adv) kex_ok sk)).
+Proof. intros Eo Hne. exact (proj1 (cconnect_mismatch hm sys usr h b port p kex_ok sk es Eo Hne)). Qed.
+
+Lemma advertised_gss_still_policy hm sys usr h b port p adv kex_ok sk :
+  our_server_keys hm sys usr (hostkey_name h b port) = None -> policy_accepts p = false ->
+  ~ In CAuth (fst (client_connect hm sys usr h b port p (gss_kex_used_flag false adv) kex_ok sk)).
+Proof. intros Eo Ep. exact (proj1 (cconnect_reject hm sys usr h b port p kex_ok sk Eo Ep)). Qed.
